@@ -141,6 +141,32 @@ theorem C05_nested_rebuild_wf (w : KWorld) (cf : Path) (name : String) (versions
     simp only [okTop, Bool.and_eq_true, Bool.not_eq_true'] at hot
     simp [isComplexRegistered, hot.2]
 
+theorem verOf_refl (versions : List (String × Json)) (hv : ∀ p ∈ versions, p.2.wf = true) (f : String) :
+    isEqual (verOf versions f) (verOf versions f) = true := by
+  unfold verOf
+  cases hf : versions.find? (fun x => x.1 = f) with
+  | none => rfl
+  | some p =>
+    obtain ⟨n, v⟩ := p
+    exact isEqual_refl v (hv _ (List.mem_of_find?_eq_some hf))
+
+/-- **C05, whole build, in terms of the inputs only**: arguments and versions in JSON normal form (what `_sanitize_args`
+    and `_sanitize_versions` produce) replace both record-level hypotheses of `C05_nested_rebuild`. -/
+theorem C05_nested_rebuild_inputs (w : KWorld) (cf : Path) (name : String) (versions : List (String × Json)) (prog : Prog)
+    (hargsWf : ArgsWf prog) (hversWf : ∀ p ∈ versions, p.2.wf = true)
+    (hwf : BuildDirs.TreeWF w.fs) (hnocache : w.fs.get cf = none) (cds : List Path)
+    (hcds : dirsToMake (visible (Impl.buildStart w cf versions [] [] (noRec name versions) []).sp) cf [] cf.dropLast = .ok cds)
+    (v : Json) (s2 : KSt) (ops : List Op)
+    (hrun : Impl.run prog none (Impl.buildStart w cf versions [] [] (noRec name versions) cds) = (.ok v, s2, ops))
+    (hok : okDeepL ops = true) (hanti : Antichain (targetsDeepL ops))
+    (hfresh : ∀ k, (k ∈ s2.sp.claimedFiles ∨ k ∈ s2.sp.createdDirs ∨ k ∈ cds ∨ k = cf) → w.fs.get k = none)
+    (hcdsT : ∀ d ∈ cds, d ∉ targetsDeepL ops) :
+    (Impl.build w cf name versions prog).res = .ok v ∧
+    (Impl.build (Impl.build w cf name versions prog).world cf name versions prog).res = .ok v ∧
+    (Impl.build (Impl.build w cf name versions prog).world cf name versions prog).invLog = [] :=
+  C05_nested_rebuild_wf w cf name versions prog hargsWf hwf hnocache cds hcds v s2 ops hrun hok hanti hfresh hcdsT
+    (verOf_refl versions hversWf)
+
 /-- what the harness' programs look like: arguments produced by `sanitize` are in normal form -/
 example : ArgsWf nRoot := by
   unfold nRoot
